@@ -122,8 +122,14 @@ pub fn child(args: &[String]) {
     }
     // Finder construction does not call the dispatched memchr routines
     let shared = Arc::new(Shared {
+        #[cfg(not(memchr_verif_noalloc))]
         finder: memchr::memmem::Finder::new(&needle).into_owned(),
+        #[cfg(not(memchr_verif_noalloc))]
         finder_rev: memchr::memmem::FinderRev::new(&needle).into_owned(),
+        #[cfg(memchr_verif_noalloc)]
+        finder: memchr::memmem::Finder::new(Box::leak(needle.clone().into_boxed_slice())),
+        #[cfg(memchr_verif_noalloc)]
+        finder_rev: memchr::memmem::FinderRev::new(Box::leak(needle.clone().into_boxed_slice())),
         needle,
         alphabet,
         hay,
